@@ -13,6 +13,44 @@ pub struct C12;
 #[derive(Serialize, Deserialize)]
 pub struct Unit {
     pub opts: Opts,
+    /// items written in front of a command name (earlier members of a chain of adjacent
+    /// commands): the help asked for behind them is still the help of the last command
+    #[serde(default)]
+    pub prefixes: Vec<Vec<String>>,
+}
+
+/// definitions outside the field x tail product: a command as one branch of a choice whose other
+/// branch takes a word of the same line, and chains of adjacent commands
+fn extra_units() -> Vec<Unit> {
+    let hn = |n: Names, t: &str| {
+        let mut n = n;
+        n.help = Some(DocSpec::plain(t));
+        n
+    };
+    let pos = |mv: &str, help: &str| P::Pos { ty: Ty::Os, strict: Strict::Any, metavar: mv.into(), help: Some(DocSpec::plain(help)) };
+    let mut init = Opts::new(P::Seq(vec![P::Switch(hn(Names::long("bare"), "no working tree")), P::Arg { names: hn(Names::long("template"), "directory with templates"), ty: Ty::Os, adjacent: false, metavar: "DIR".into() }.opt()]));
+    init.cfg.descr = Some(DocSpec::plain("create a repository"));
+    init.cfg.header = Some(DocSpec::plain("header of init"));
+    init.cfg.footer = Some(DocSpec::plain("footer of init"));
+    let init = P::Cmd { name: "init".into(), shorts: vec!['i'], longs: vec![], inner: Box::new(init), adjacent: false, help: None };
+    let mut out = vec![];
+    for k in 0..4 {
+        let other = if k < 2 { pos("FILE", "file to look at") } else { P::ReqFlag(hn(Names::long("watch"), "keep running")) };
+        let alt = if k % 2 == 0 { P::Alt(vec![init.clone(), other]) } else { P::Alt(vec![other, init.clone()]) };
+        out.push(Unit { opts: Opts::new(P::Seq(vec![P::Switch(hn(Names::both('v', "verbose"), "say more")), alt])), prefixes: vec![] });
+    }
+    // chains of adjacent commands under many
+    let adj = |name: &str, inner: Vec<P>, descr: &str| {
+        let mut o = Opts::new(P::Seq(inner));
+        o.cfg.descr = Some(DocSpec::plain(descr));
+        P::Cmd { name: name.into(), shorts: vec![], longs: vec![], inner: Box::new(o), adjacent: true, help: None }
+    };
+    let eat = adj("eat", vec![pos("FOOD", "what to eat")], "eat something");
+    let drink = adj("drink", vec![P::Switch(hn(Names::long("coffee"), "with coffee")), P::Arg { names: hn(Names::long("sugar"), "spoons of sugar"), ty: Ty::Os, adjacent: false, metavar: "N".into() }.opt()], "drink something");
+    let sleep = adj("sleep", vec![P::Arg { names: hn(Names::long("time"), "hours"), ty: Ty::Os, adjacent: false, metavar: "T".into() }], "sleep a while");
+    let prefixes: Vec<Vec<String>> = [vec!["eat", "Fastfood"], vec!["sleep", "--time", "3"], vec!["-v", "sleep", "--time", "3", "eat", "Apple"], vec!["drink", "--coffee"]].iter().map(|v| v.iter().map(|s| s.to_string()).collect()).collect();
+    out.push(Unit { opts: Opts::new(P::Seq(vec![P::Switch(hn(Names::short('v'), "say more")), P::Alt(vec![eat, drink, sleep]).many()])), prefixes });
+    out
 }
 
 fn viol(rule: &str, unit: &Value, path: &[String], detail: String, text: &str) -> Violation {
@@ -416,6 +454,50 @@ fn run_def(unit: &Value, o: &Opts, only_path: Option<&[String]>, ctx: &mut Ctx) 
     }
 }
 
+fn same_but_path(full: &str, alone: &str) -> bool {
+    let (fl, al): (Vec<&str>, Vec<&str>) = (full.lines().collect(), alone.lines().collect());
+    fl.len() == al.len()
+        && fl.iter().zip(al.iter()).all(|(f, a)| match (f.strip_prefix("Usage: "), a.strip_prefix("Usage: ")) {
+            (Some(f), Some(a)) => f.ends_with(a),
+            _ => f == a,
+        })
+}
+
+/// help asked for behind earlier members of a chain is the help of the command it follows
+fn prefix_clause(unit: &Value, u: &Unit, only_path: Option<&[String]>, ctx: &mut Ctx) {
+    if u.prefixes.is_empty() {
+        return;
+    }
+    let p = match build_checked(&u.opts) {
+        Ok(p) => p,
+        Err(_) => return,
+    };
+    for (path, _) in levels(&u.opts) {
+        if path.len() != 1 {
+            continue;
+        }
+        let alone = match help_text(&p, &path) {
+            Outcome::Stdout { text, .. } => text,
+            _ => continue, // reported by check_level
+        };
+        for pre in &u.prefixes {
+            let mut full = pre.clone();
+            full.extend(path.iter().cloned());
+            if only_path.map_or(false, |op| op != full.as_slice()) {
+                continue;
+            }
+            ctx.begin_case(|| json!({"path": full}));
+            ctx.s.evaluations += 1;
+            match help_text(&p, &full) {
+                // (the path shown in the usage line accumulates the earlier commands; everything
+                // else, including the items in the usage line, is the text of the level)
+                Outcome::Stdout { text, .. } if same_but_path(&text, &alone) => ctx.s.nontrivial += 1,
+                other => ctx.violation(viol("help-behind-earlier-commands-is-the-help-of-the-last-one", unit, &full, format!("the text printed for {:?} --help", path), &format!("{:?}", other))),
+            }
+        }
+    }
+}
+
 impl Check for C12 {
     fn id(&self) -> &'static str {
         "C12"
@@ -424,7 +506,7 @@ impl Check for C12 {
         "exploration"
     }
     fn units(&self, tier: Tier, _seed: u64) -> Vec<Value> {
-        doc_defs(3).into_iter().map(|o| serde_json::to_value(Unit { opts: o }).unwrap()).collect()
+        extra_units().into_iter().chain(doc_defs(3).into_iter().map(|o| Unit { opts: o, prefixes: vec![] })).map(|u| serde_json::to_value(u).unwrap()).collect()
     }
     fn run_unit(&self, unit: &Value, ctx: &mut Ctx) {
         let u: Unit = serde_json::from_value(unit.clone()).unwrap();
@@ -432,6 +514,7 @@ impl Check for C12 {
         // line in it (the value is shown in the help; the rows after it must stay)
         std::env::remove_var("BPAFMC_DOC");
         run_def(unit, &u.opts, None, ctx);
+        prefix_clause(unit, &u, None, ctx);
         if serde_json::to_string(&u.opts).map_or(false, |t| t.contains("BPAFMC_DOC")) {
             std::env::set_var("BPAFMC_DOC", "a\n\nb");
             run_def(unit, &u.opts, None, ctx);
@@ -444,6 +527,7 @@ impl Check for C12 {
         std::env::remove_var("BPAFMC_DOC");
         ctx.s.evaluations += 1;
         run_def(unit, &u.opts, Some(&path), ctx);
+        prefix_clause(unit, &u, Some(&path), ctx);
         if ctx.s.violations.is_empty() && serde_json::to_string(&u.opts).map_or(false, |t| t.contains("BPAFMC_DOC")) {
             std::env::set_var("BPAFMC_DOC", "a\n\nb");
             run_def(unit, &u.opts, Some(&path), ctx);
